@@ -427,6 +427,9 @@ func init() {
 		return nil
 	}
 	register(&Check{ID: "C13", Engine: "A", Run: func(c *Ctx) {
+		if msg := sameNamedTypes(); msg != "" {
+			c.Violation("same-named-types", "two distinct types that merely print the same name (function-local declarations): "+msg, nil, 0)
+		}
 		if msg := hollowFirst(); msg != "" {
 			// alias types first met in hollow form: the order in which values of a type arrive must not matter
 			c.Violation("hollow-value-seen-first", "after nil pointers / zero values of an alias type had been the first values of that type the library saw: "+msg, nil, 0)
